@@ -60,6 +60,12 @@ def detect(sid, pids):
     rc, o = sh(["git", "-C", "/repo", "apply", os.path.join(d, "patch.diff")])
     assert rc == 0, "patch does not apply: " + o
     out = {}
+    # the evidence files are the record of the unchanged tree: keep them out of a run on a changed tree
+    saved = {}
+    for pid in pids:
+        ev = os.path.join(VERIF, "evidence", pid + ".json")
+        if os.path.exists(ev):
+            saved[ev] = open(ev).read()
     try:
         for pid in pids:
             t0 = time.time()
@@ -71,6 +77,8 @@ def detect(sid, pids):
     finally:
         sh(["git", "-C", "/repo", "checkout", "--", "."])
         sh(["git", "-C", "/repo", "clean", "-fdq"])  # patches that add files
+        for ev, txt in saved.items():
+            open(ev, "w").write(txt)
     meta.setdefault("detection", {}).update(out)
     json.dump(meta, open(os.path.join(d, "meta.json"), "w"), indent=1)
     return 0
